@@ -333,6 +333,7 @@ def run(ctx):
     # ---- R19.6
     ex = [f for f in prog.methods_of(DL_EXC) if f.kind == "ctor" and f.has_cfg and len(f.params) == 2]
     ctx.need("R19.6", "dl::exception constructor", len(ex), 1)
+    good_ctors = set()
     for f in ex:
         pn = f.params[0]["name"]
         stores = []
@@ -361,11 +362,40 @@ def run(ctx):
                             for s2 in src2:
                                 if s2 in names2 and names2.index(s2) < len(x0.get("args", [])):
                                     stores.append((None, fmt(ir.unwrap(x0["args"][names2.index(s2)]))))
-        ok = any(re.search(r"basic_string\{%s(, allocator\{\})?\}" % pn, s0) for _, s0 in stores)
+        ok = bool(pn) and any(re.search(r"basic_string\{%s(, allocator\{\})?\}" % re.escape(pn), s0) for _, s0 in stores)
+        if ok:
+            good_ctors.add(f.id)
         ctx.check(ok, "R19.6", f, "stores-diagnostic", "dl::exception does not store the loader's diagnostic (stores: %s)" % stores, f)
         rets = [g for g in prog.methods_of(DL_EXC) if g.name == "dlerror" and g.has_cfg]
         for g in rets:
             r = [fmt(ir.unwrap(e["expr"].get("e"))) for _, _, e in g.roots() if e["expr"].get("k") == "return"]
             ctx.check(r == ["dlerror_"], "R19.6", g, "returns-diagnostic", "dl::exception::dlerror() returns %s" % r, g)
+    # ---- R19.10: every dl::exception that is raised is built by a constructor that stores the diagnostic (overload selection: an
+    # inherited / added constructor that matches the raise's arguments better takes the loader's text as part of the message and
+    # leaves dlerror() empty)
+    ctx.rule("R19.10", "raises-through-the-storing-constructor: every construction of nitro::dl::exception in /repo (the raise<dl::exception> instantiations included) selects a constructor that stores its first argument as the diagnostic")
+    storing = good_ctors
+    ncons = 0
+    for g in sorted(prog.fns.values(), key=lambda h: h.id):
+        if not g.has_cfg or not g.file.startswith("/repo/") or g.is_pattern:
+            continue
+        if not ("/nitro/dl/" in g.file or (g.qual == "nitro::except::raise" and ("#<" + DL_EXC) in g.id)):
+            continue
+        for bid, i, e in g.all_elems():
+            x = e.get("expr")
+            if not isinstance(x, dict):
+                continue
+            for n in walk(x):
+                if isinstance(n, dict) and n.get("k") == "construct" and (n.get("type") or "").replace("class ", "") in (DL_EXC, "exception") and (n.get("ctor") or "").startswith(("nitro::dl::exception::", "nitro::except::exception::")):
+                    c = prog.fn(n.get("ctor")) if n.get("ctor") else None
+                    if c is not None and (c.flags.get("copy_ctor") or c.flags.get("move_ctor")) and c.cls == DL_EXC:
+                        continue
+                    if g.cls == DL_EXC or (c is not None and c.cls != DL_EXC and g.cls is not None):
+                        continue  # the base-class initialiser inside dl::exception's own constructors
+                    ncons += 1
+                    ctx.check(n.get("ctor") in storing, "R19.10", g, "raises-through-the-storing-constructor:%s" % fmt(n)[:60],
+                              "%s builds the dl::exception through %s, which does not store the loader's diagnostic: dlerror() of the caught exception is empty and what() "
+                              "is another text" % (short(g.qual), (n.get("ctor") or "?")[:120]), (g, e.get("ln")), why_ok=(n.get("ctor") or "")[:80])
+    ctx.need("R19.10", "constructions of dl::exception", ncons, 2)
     ctx.assume("the loader's own reference counting (dlopen/dlclose pairing inside libc) is outside the source")
     ctx.trust("std::shared_ptr: the deleter runs exactly once when the last owner goes away - also for a null stored pointer when a deleter was supplied (Appendix D.3)")
